@@ -1,6 +1,9 @@
 (* Circom's documented field semantics (circom docs, "Basic operators"), written
    independently of the implementation, in floor-division style.  The operands
-   are canonical field elements 0 <= a, b < p. *)
+   are canonical field elements 0 <= a, b < p.  One clause does not come from
+   the documentation, which leaves the width of `~` open: the complement is
+   taken on 256 bits and then reduced, as the circom compiler does (and as the
+   property text says: "the 256-bit complement masked and reduced"). *)
 From Coq Require Import ZArith Zpow_facts.
 Require Import Model.Base Model.Field.
 Local Open Scope Z_scope.
